@@ -167,9 +167,9 @@ def leaf_values(buf, out=None):
             v = 0
             for b in body:
                 v = v * 256 + b
-            if typ in (T_INT, T_LONG, T_DATE) and body[0] >= 128:
-                v -= 1 << (8 * length)
-            out.setdefault(tag, []).append(v)
+            if len(body) and typ in (T_INT, T_LONG, T_DATE) and body[0] >= 128:
+                v -= 1 << (8 * len(body))
+            out.setdefault(tag, []).append(v if len(body) else None)
         else:
             out.setdefault(tag, []).append(bytes(body))
         i += 8 + length + pad_to_8(length)
@@ -226,3 +226,18 @@ def structural_defect(buf):
         return True
     walk_(0, len(buf), 0)
     return found[0] if found else None
+
+
+def top_children_tags(buf):
+    """Tags of the direct children of the first (top-level) item, by length arithmetic only (no
+    validation of tags, types or padding: the caller has already established structural soundness)."""
+    out = []
+    if len(buf) < 8:
+        return out
+    length = ((buf[4] * 256 + buf[5]) * 256 + buf[6]) * 256 + buf[7]
+    i, hi = 8, min(8 + length, len(buf))
+    while i + 8 <= hi:
+        out.append(buf[i] * 65536 + buf[i + 1] * 256 + buf[i + 2])
+        ln = ((buf[i + 4] * 256 + buf[i + 5]) * 256 + buf[i + 6]) * 256 + buf[i + 7]
+        i += 8 + ln + pad_to_8(ln)
+    return out
